@@ -8,7 +8,7 @@ import os
 import subprocess
 import sys
 
-REPO = "/repo"
+REPO = os.environ.get("SEED_REPO", "/repo")   # a scratch worktree may be used instead of /repo itself
 VERIF = os.path.dirname(os.path.dirname(os.path.abspath(__file__)))
 
 
@@ -40,7 +40,7 @@ def main():
             rc, out = sh(f"/venv/bin/python -W ignore {demo}", cwd=REPO, timeout=900)
             print(f"demo with change   : exit {rc}  ({out.strip().splitlines()[-1][:150] if out.strip() else ''})")
         for c in checks:
-            rc, out = sh(f"./check {c} --tier {tier}", cwd=VERIF, timeout=7200)
+            rc, out = sh(f"GCMPY_REPO={REPO} ./check {c} --tier {tier}", cwd=VERIF, timeout=7200)
             viol = [l for l in out.splitlines() if l.startswith("VIOLATION")]
             keys = [l for l in out.splitlines() if "violation key=" in l]
             infra = [l for l in out.splitlines() if l.startswith("INFRASTRUCTURE-ERROR")]
